@@ -51,6 +51,9 @@ type RunSpec struct {
 	Order    Order         `json:"order"`
 	Disk     scan.DiskPlan `json:"disk"`
 	CancelAt int           `json:"cancel_at"` // -1 never; sim: seam event index; real: index of the Extract call
+	// CancelOn (sim): cancel when the K-th occurrence of (Op, Path) is recorded, e.g. the 3rd read
+	// of an rpm database = in the middle of GetRealPath's temporary copy.
+	CancelOn *scan.Fault `json:"cancel_on,omitempty"`
 }
 
 const watchdog = 20 * time.Second
@@ -68,6 +71,7 @@ type ExtractRec struct {
 	Reads     int
 	Opens     int
 	AllocMB   int64    // growth of runtime.MemStats.Sys during the call
+	TotalMB   int64    // bytes allocated during the call (runtime.MemStats.TotalAlloc), MiB
 	Touched   []string // paths opened through the FS during this call (sim mode)
 }
 
@@ -77,30 +81,31 @@ type PkgObs struct {
 
 // Obs is what one scan produced.
 type Obs struct {
-	Extracts   []*ExtractRec
-	Required   map[string]map[string]bool // extractor -> path -> FileRequired result
-	Pkgs       []PkgObs
-	Status     map[string]plugin.ScanStatusEnum
-	Reason     map[string]string
-	NStatus    int
-	Returned   bool
-	Overall    plugin.ScanStatusEnum
-	OverallMsg string
-	Panic      string // panic value, "" if none
-	PanicExt   string
-	PanicSite  string
-	PanicStack string
-	Budget     string // "" or "<kind>:<extractor>"
-	Hang       bool
-	HangExt    string
-	HangKind   string // watchdog | runaway-memory
-	HistFP     string
-	Events     int
-	Fired      map[string]int
-	OpenLeak   int
-	Enabled    []string
-	TreeBytes  int
-	Nodes      int
+	Extracts      []*ExtractRec
+	Required      map[string]map[string]bool // extractor -> path -> FileRequired result
+	Pkgs          []PkgObs
+	Status        map[string]plugin.ScanStatusEnum
+	Reason        map[string]string
+	NStatus       int
+	Returned      bool
+	Overall       plugin.ScanStatusEnum
+	OverallMsg    string
+	Panic         string // panic value, "" if none
+	PanicExt      string
+	PanicSite     string
+	PanicStack    string
+	Budget        string // "" or "<kind>:<extractor>"
+	Hang          bool
+	HangExt       string
+	HangKind      string // watchdog | runaway-memory
+	CancelOnFired bool
+	HistFP        string
+	Events        int
+	Fired         map[string]int
+	OpenLeak      int
+	Enabled       []string
+	TreeBytes     int
+	Nodes         int
 	// AfterExtract, if set before the run, is called (on the scan goroutine) after every Extract.
 }
 
@@ -113,24 +118,25 @@ var poisoned bool
 
 // harness is the shared state of the extractor wrappers of one scan.
 type harness struct {
-	mu        sync.Mutex
-	rec       *scan.Recorder
-	obs       *Obs
-	cur       *ExtractRec
-	lastExt   string
-	srcOf     map[*extractor.Package]string
-	readLimit int
-	openLimit int
-	nExtract  int
-	cancel    context.CancelFunc
-	cancelAt  int
-	realMode  bool
-	budgetHit string
-	origPanic string // first panic seen leaving an Extract call
-	origStack string
-	origFault bool   // it was a memory fault (runtime error with an address)
-	progress  string // child mode: file in which the extractor being run is noted
-	after     func(ext, path string)
+	mu           sync.Mutex
+	rec          *scan.Recorder
+	obs          *Obs
+	cur          *ExtractRec
+	lastExt      string
+	srcOf        map[*extractor.Package]string
+	readLimit    int
+	openLimit    int
+	nExtract     int
+	cancel       context.CancelFunc
+	cancelAt     int
+	realMode     bool
+	budgetHit    string
+	cancelOnSeen int
+	origPanic    string // first panic seen leaving an Extract call
+	origStack    string
+	origFault    bool   // it was a memory fault (runtime error with an address)
+	progress     string // child mode: file in which the extractor being run is noted
+	after        func(ext, path string)
 }
 
 type wrapped struct {
@@ -172,6 +178,7 @@ func (w *wrapped) Extract(ctx context.Context, input *filesystem.ScanInput) (inv
 	h.cur = nil
 	er.Returned = true
 	er.AllocMB = int64(m1.Sys>>20) - int64(m0.Sys>>20) // growth of the memory obtained from the OS
+	er.TotalMB = int64((m1.TotalAlloc - m0.TotalAlloc) >> 20)
 	er.NonEmpty = !inv.IsEmpty()
 	er.NPkgs = len(inv.Packages)
 	for _, p := range inv.Packages {
@@ -376,6 +383,13 @@ func runScan(spec *RunSpec, corrupt bool, sb *sandbox, after func(ext, p string)
 		if !h.realMode && seq == h.cancelAt {
 			cancel()
 			e.Arg += " [CANCEL]"
+		}
+		if co := spec.CancelOn; co != nil && e.Op == co.Op && e.Path == co.Path {
+			if h.cancelOnSeen++; h.cancelOnSeen == co.K {
+				cancel()
+				e.Arg += " [CANCEL]"
+				obs.CancelOnFired = true
+			}
 		}
 		cur := h.cur
 		if cur == nil {
